@@ -273,6 +273,13 @@ def configs(thorough):
         for cont in ("dict", "mgr+req"):
             for pl in policy_placements()[:3]:
                 out.append(("M", client, "canonical", cont, pl, "GET", 1))
+        if not thorough:
+            # quick tier: a request WITH a body on a reduced product (thorough runs POST on the whole product): a 303
+            # turns it into a body-less GET *and* the cross-origin strip applies - two rewrites of one header mapping
+            # that must compose (wave-6 change w6_c06_m1 rebuilt the mapping from the unstripped original)
+            for cont in ("dict", "hd", "mgr+req"):
+                for pl in policy_placements()[:2]:
+                    out.append(("M", client, "canonical", cont, pl, "POST", 0))
         for sp in ("alternating", "upper"):
             for cont in ("dict", "hd"):
                 for pl in extra_placements():
